@@ -256,6 +256,20 @@ func genC19(r *Rng, e *Emitter, n int) {
 		}
 		e.tally("op=roundtrip")
 		e.emit("C19.rt", "("+strings.Join(fx, " ")+")", guard(func() string {
+			// half of the tracks are written by one long-lived Encoder whose buffer the caller empties
+			// between tracks: every file it writes stands on its own
+			if len(flat)%2 == 0 {
+				c19Buf.Reset()
+				if c19Enc == nil {
+					c19Enc = igc.NewEncoder(&c19Buf, igc.A("XXXverif"))
+				}
+				if err := c19Enc.Encode(geom.NewLineStringFlat(geom.Layout(5), flat)); err != nil {
+					return "(err other)"
+				}
+				b := append([]byte{}, c19Buf.Bytes()...)
+				tr, _ := igc.Read(bytes.NewReader(b))
+				return fmt.Sprintf("(ok %s %s)", hexS(b), sxCoord(tr.LineString.FlatCoords()))
+			}
 			var buf bytes.Buffer
 			if err := igc.NewEncoder(&buf, igc.A("XXXverif")).Encode(geom.NewLineStringFlat(geom.Layout(5), flat)); err != nil {
 				return "(err other)"
@@ -265,5 +279,8 @@ func genC19(r *Rng, e *Emitter, n int) {
 		}))
 	}
 }
+
+var c19Buf bytes.Buffer
+var c19Enc *igc.Encoder
 
 var _ = math.Abs
